@@ -21,9 +21,9 @@ Proof. exact threshold_ok_spec. Qed.
    function) and by evaluation (C12_example); BLS12-381 itself - the group law, the pairing, that
    the scalar field order is prime - is trusted: the model computes in the exponent. *)
 Theorem C12_success_is_consistent :
-  forall c tm acct thr parts poly cl pk cl',
+  forall c nt acct thr parts poly cl pk cl',
     check_len c = true -> cluster_inv c cl -> polys_ok c thr poly -> NoDup parts ->
-    generate c tm acct thr parts poly cl = (DOk pk, cl') ->
+    generate c nt acct thr parts poly cl = (DOk pk, cl') ->
     threshold_ok (List.length parts) thr = true /\
     forall p, In p parts ->
       exists n a, cfind p cl' = Some n /\ afind String.eqb acct (nd_accts n) = Some a /\
@@ -36,7 +36,7 @@ Print Assumptions C12_success_is_consistent.
 
 (* non-vacuity: an honest 2-of-3 run of the protocol model: same vector everywhere, shares on the line *)
 Example C12_example :
-  exists cl', generate {| check_len := true |} honest "W/a" 2 [1; 2; 3]%N poly3 [mkn 1; mkn 2; mkn 3] = (DOk 6021, cl') /\
+  exists cl', generate {| check_len := true |} (net_of honest) "W/a" 2 [1; 2; 3]%N poly3 [mkn 1; mkn 2; mkn 3] = (DOk 6021, cl') /\
   map (fun n => map (fun a => (ar_vvec (snd a), ar_share (snd a))) (nd_accts n)) cl' =
   [[([6021; 15], 6036)]; [([6021; 15], 6051)]; [([6021; 15], 6066)]].
 Proof. exact honest_run_example. Qed.
